@@ -314,6 +314,97 @@ theorem C18_operation_all_bound (h : Handle) (ops : List OpStep) (hk : ∀ o ∈
     (runOp h ops).calls = List.replicate (runOp h ops).calls.length h.ctx :=
   List.eq_replicate_iff.mpr ⟨rfl, C18_operation_calls h ops hk⟩
 
+/-! ### Refinement: the context of every driver call is the INNERMOST enclosing binding
+
+The abstract specification forgets handles, statements, clone modes and flags: a stack of contexts;
+a caller session naming a context pushes that context, every other derivation pushes the current
+one again, a call logs the top.  The concrete machine (regenerated `Session()` / `getInstance()`
+bodies, internal session call sites) refines it step by step. -/
+def OpStep.ok : OpStep → Prop
+  | .enter (.userSession _ _) => True      -- the caller may re-bind, with any flags
+  | .enter d => d.keeps
+  | _ => True
+
+def specCtx (cur : Nat) : Deriv → Nat
+  | .userSession fl c => if fl .hasContext then c else cur
+  | _ => cur
+
+structure CtxSpec where
+  stack : List Nat
+  calls : List Nat
+deriving Repr, DecidableEq
+
+def CtxSpec.step (s : CtxSpec) : OpStep → CtxSpec
+  | .enter d => match s.stack with
+    | [] => s
+    | c :: rest => { s with stack := specCtx c d :: c :: rest }
+  | .leave => match s.stack with
+    | _ :: c :: rest => { s with stack := c :: rest }
+    | _ => s
+  | .call => match s.stack with
+    | [] => s
+    | c :: _ => { s with calls := c :: s.calls }
+
+def OpState.abs (s : OpState) : CtxSpec := { stack := s.stack.map (·.ctx), calls := s.calls }
+
+theorem C18_step_ctx (h : Handle) (d : Deriv) (hk : (OpStep.enter d).ok) :
+    (h.step d).ctx = specCtx h.ctx d := by
+  cases d with
+  | getInstance => exact C18_step_keeps h _ hk
+  | session u fl => exact C18_step_keeps h _ hk
+  | userSession fl c =>
+    cases hc : fl .hasContext with
+    | false =>
+      have := C18_step_keeps h (.userSession fl c) hc
+      simpa [specCtx, hc] using this
+    | true =>
+      have g := C18_session_context_set fl hc
+      simp [specCtx, Handle.step, Handle.afterSession, g.1, g.2.1, CtxSym.concrete, hc]
+
+theorem C18_opstep_refines (s : OpState) (o : OpStep) (hk : o.ok) :
+    (s.step o).abs = s.abs.step o := by
+  cases o with
+  | enter d =>
+    cases hs : s.stack with
+    | nil => simp [OpState.step, CtxSpec.step, OpState.abs, hs]
+    | cons h rest => simp [OpState.step, CtxSpec.step, OpState.abs, hs, C18_step_ctx h d hk]
+  | leave =>
+    cases hs : s.stack with
+    | nil => simp [OpState.step, CtxSpec.step, OpState.abs, hs]
+    | cons h rest =>
+      cases rest with
+      | nil => simp [OpState.step, CtxSpec.step, OpState.abs, hs]
+      | cons h2 rest2 => simp [OpState.step, CtxSpec.step, OpState.abs, hs]
+  | call =>
+    cases hs : s.stack with
+    | nil => simp [OpState.step, CtxSpec.step, OpState.abs, hs]
+    | cons h rest => simp [OpState.step, CtxSpec.step, OpState.abs, hs]
+
+/-- MAIN (refinement): for ANY operation tree in which the caller re-binds wherever it likes and all
+    other derivations are the ones gorm performs, the log of contexts handed to database/sql is the
+    log of the abstract specification: each call carries the innermost enclosing binding, a
+    re-binding is visible exactly inside the sub-tree it encloses and gone after `leave`. -/
+theorem C18_operation_refines (s : OpState) (ops : List OpStep) (hk : ∀ o ∈ ops, o.ok) :
+    (s.run ops).abs = ops.foldl CtxSpec.step s.abs := by
+  unfold OpState.run
+  induction ops generalizing s with
+  | nil => rfl
+  | cons o ops ih =>
+    simp only [List.foldl_cons]
+    rw [ih (s.step o) (fun o' ho' => hk o' (List.mem_cons_of_mem _ ho')), C18_opstep_refines s o (hk o (by simp))]
+
+theorem C18_operation_calls_spec (h : Handle) (ops : List OpStep) (hk : ∀ o ∈ ops, o.ok) :
+    (runOp h ops).calls = (ops.foldl CtxSpec.step { stack := [h.ctx], calls := [] }).calls := by
+  have := congrArg CtxSpec.calls (C18_operation_refines { stack := [h], calls := [] } ops hk)
+  simpa [runOp, OpState.abs] using this
+
+/-- non-vacuity: bound to 7; a sibling sub-tree re-bound to 9 (with NewDB) issues two calls, the
+    calls before and after it carry 7 -/
+example : (runOp { ctx := 7, clone := 1 }
+      [.enter .getInstance, .call,
+       .enter (.userSession (SessFlags.ofList [.newDB, .hasContext]) 9), .enter .getInstance, .call, .call, .leave, .leave,
+       .call]).calls = [7, 9, 9, 7] := by decide
+
 /-- non-vacuity: a handle bound to 7, main statement, a preload session issuing two calls, back, one more -/
 example : ∃ u ∈ sessionUses, u.fn = "preloadDB" ∧
     (runOp { ctx := 7, clone := 1 }
